@@ -117,6 +117,8 @@ pub fn library() -> Vec<Decl> {
         Decl { name: "LPair", params: 2, codata: true, xtors: vec![("lfst", vec![], Some(P(0))), ("lsnd", vec![], Some(P(1)))] },
         // a data type whose first constructor has arguments and whose second has none
         Decl { name: "Res", params: 1, codata: false, xtors: vec![("Ok", vec![P(0)], None), ("Err", vec![], None), ("Warn", vec![P(0), I], None)] },
+        // six constructors (jump table with more than four entries)
+        Decl { name: "Six", params: 0, codata: false, xtors: vec![("S0", vec![], None), ("S1", vec![I], None), ("S2", vec![], None), ("S3", vec![I, I], None), ("S4", vec![], None), ("S5", vec![D("List", vec![I])], None)] },
         // a codata type whose destructor takes a value of the type itself (`f.app(f, n)`)
         Decl { name: "Rec", params: 0, codata: true, xtors: vec![("app", vec![D("Rec", vec![]), I], Some(I))] },
         // destructors with covariable parameters (trailing and leading)
@@ -402,6 +404,30 @@ impl<'a> G<'a> {
                             ids.push(id);
                         }
                         let rt = inst(ret.as_ref().unwrap(), args);
+                        if ks.is_empty() && rt == T::I && self.rng.pct(12) {
+                            let outer: Vec<usize> = sc2.vars.iter().filter(|(_, vt, cv)| *cv && *vt == T::I).map(|(i, _, _)| *i).collect();
+                            let ints: Vec<usize> = sc2.vars.iter().filter(|(_, vt, cv)| !*cv && *vt == T::I).map(|(i, _, _)| *i).collect();
+                            if !outer.is_empty() && self.rng.pct(50) {
+                                // the clause leaves through a label of the enclosing scope, which the
+                                // object captures
+                                let c = self.pure(&T::I, &sc2, depth + 2);
+                                let v = self.pure(&T::I, &sc2, depth + 2);
+                                let other = self.pure(&T::I, &sc2, depth + 2);
+                                let jump = E::Goto(*self.rng.pick(&outer), Box::new(v));
+                                clauses.push((xn.to_string(), ids, E::If(self.rng.below(6), Box::new(c), None, Box::new(jump), Box::new(other))));
+                                continue;
+                            }
+                            if ints.len() >= 5 {
+                                // a wide environment: the body mentions up to eight variables
+                                let mut body = E::Lit(self.lit());
+                                for v in ints.iter().rev().take(8) {
+                                    let op = *self.rng.pick(&[Op::Add, Op::Sub, Op::Add]);
+                                    body = E::Op(Box::new(body), op, Box::new(E::Var(*v)));
+                                }
+                                clauses.push((xn.to_string(), ids, body));
+                                continue;
+                            }
+                        }
                         if !ks.is_empty() && self.rng.pct(60) {
                             // leave through the covariable parameter on one branch
                             let c = self.pure(&T::I, &sc2, depth + 2);
@@ -515,7 +541,15 @@ impl<'a> G<'a> {
             return None;
         }
         let vt = rts[self.rng.below(rts.len())].clone();
-        let callee = self.call(&vt, sc, depth + 1, !eff)?;
+        // the scrutinee: a call, or any other non-variable term of that type (a conditional, a match,
+        // a let ...)
+        let callee = if self.rng.pct(60) {
+            self.call(&vt, sc, depth + 1, !eff)?
+        } else if eff && self.rng.pct(self.cfg.eff_args_pct) {
+            self.eff(&vt, sc, depth + 3)
+        } else {
+            self.pure(&vt, sc, depth + 2)
+        };
         let T::D(n, args) = &vt else { return None };
         let d = self.decl(n);
         let mut clauses = Vec::new();
@@ -1258,6 +1292,17 @@ pub fn generate(rng: &mut Rng, cfg: &FunCfg) -> FunProg {
     let pool = [T::D("List".into(), vec![T::I]), T::D("Pair".into(), vec![T::I, T::I]), T::D("Opt".into(), vec![T::I]), T::D("Color".into(), vec![])];
     for _ in 1..cfg.type_instances {
         let t = pool[g.rng.below(pool.len())].clone();
+        g.elems.push(t);
+    }
+    // sometimes nested instances and codata inside data (List[Fun[i64, i64]], Pair[List[i64], Opt[..]])
+    if cfg.type_instances > 1 && g.rng.pct(35) {
+        let inner = g.elems[g.rng.below(g.elems.len())].clone();
+        let t = match g.rng.below(4) {
+            0 => T::D("List".into(), vec![inner]),
+            1 => T::D("Pair".into(), vec![inner, T::D("Opt".into(), vec![T::I])]),
+            2 if cfg.codata_pct > 0 => T::D("Fun".into(), vec![T::I, T::I]),
+            _ => T::D("Res".into(), vec![inner]),
+        };
         g.elems.push(t);
     }
     // signatures
